@@ -43,10 +43,11 @@ type c19cScenario struct {
 	clean   int    // limit of cleanRemoved
 	writer  bool   // with the writer thread (otherwise reader || merger only)
 	reads   int    // consecutive reads of the reader (1 or 2)
+	nomerge bool   // without the merger thread (reader || writer only)
 }
 
 func (c c19cScenario) id() string {
-	return fmt.Sprintf("%s|initial=%s|merged=%d|next=%c|writer=%v|read=%dx%s|clean=%d", c.name, c.initial, c.merged, c.next, c.writer, c.reads, c.read, c.clean)
+	return fmt.Sprintf("%s|initial=%s|merged=%d|next=%c|writer=%v|merger=%v|read=%dx%s|clean=%d", c.name, c.initial, c.merged, c.next, c.writer, !c.nomerge, c.reads, c.read, c.clean)
 }
 
 type c19cRead struct {
@@ -225,7 +226,11 @@ func c19cBuild(env *vfEnv, c c19cScenario) vsched.Scenario {
 		}
 	}
 
-	roots := []func(){reader, merger}
+	roots := []func(){reader}
+	if !c.nomerge {
+		roots = append(roots, merger)
+	}
+
 	if c.writer {
 		roots = append(roots, writer)
 	}
@@ -347,8 +352,9 @@ func TestVerifC19S(t *testing.T) {
 
 		add("perm+two-temps", "GSS", 1, "lastmap", 2, clean, true)
 
-		if clean == 0 { // ~10^5 executions
-			add("two-temps", "GS", 0, "stateA", 2, clean, true)
+		if clean == 3 {
+			// reader || writer (all three threads with a State read are ~3*10^5 executions)
+			cfgs = append(cfgs, c19cScenario{name: "two-temps", initial: "GS", next: 'S', read: "stateA", reads: 2, clean: clean, writer: true, nomerge: true})
 		}
 
 		add("two-temps", "GS", 0, "statePolicy", 2, clean, false)
@@ -363,7 +369,7 @@ func TestVerifC19S(t *testing.T) {
 		)
 	}
 
-	r.Rule("per scenario (initial chain x kind of the new block x kind of read x cleanRemoved limit x with/without writer) every interleaving of reader (1 or 2 reads) || merger (mergePermanent; cleanRemoved) [|| writer (MergeBlockWriteDatabase)] and of the job goroutines Center.dig / the permanent merge spawn, within the preemption bound (every shard explores a disjoint set of first-level subtrees of every scenario); non-trivial = a scenario in which more than one read outcome class was observed")
+	r.Rule("per scenario (initial chain x kind of the new block x kind of read x cleanRemoved limit x with/without writer) every interleaving of reader (1 or 2 reads) || merger (mergePermanent; cleanRemoved) [|| writer (MergeBlockWriteDatabase)] (one scenario: reader || writer) and of the job goroutines Center.dig / the permanent merge spawn, within the preemption bound (every shard explores a disjoint set of first-level subtrees of every scenario); non-trivial = a scenario in which more than one read outcome class was observed")
 	r.Assume("goleveldb, gcache and zerolog run as atomic steps of the calling thread; state caches are off (their map-ordered traversal would make the schedule depend on Go's map order); data races are invisible to the cooperative scheduler")
 	r.Set("preemption_bound", bound)
 	r.Set("scenarios_enumerated", len(cfgs))
@@ -410,6 +416,7 @@ func TestVerifC19S(t *testing.T) {
 		r.EvalN(res.Executions)
 		if sh == 0 {
 			r.Add("scenarios", 1)
+			r.Set("executions_of_shard_0:"+id, res.Executions)
 		}
 
 		if res.Capped != "" {
